@@ -50,7 +50,7 @@ func init() {
 			fmt.Fprintln(os.Stderr, err)
 			return 2
 		}
-		ov := map[string]map[string]string{"Replace": {"/repo/cmd/bcl/zz_verif_args.go": src}}
+		ov := map[string]map[string]string{"Replace": {filepath.Join(fw.RepoDir(), "cmd/bcl/zz_verif_args.go"): src}}
 		b, _ := json.Marshal(ov)
 		p := filepath.Join(dir, "overlay.json")
 		os.WriteFile(p, b, 0o644)
